@@ -135,7 +135,9 @@ def boundary_obls(prefix):
     #   S2: the same one level deeper with a grandparent [2..9]
     scen = [(2, 1, (0, 3, 1), "1,2,3,4,4,5,1,3", "S1", "quick"), (1, 1, (0, 3, 1), "1,2,3,4,4,5,1,3", "S1", "quick"),
             (3, 1, (0, 3, 1), "1,2,3,4,4,5,1,3", "S1", "quick"),
-            (2, 4, (0, 0, 0, 0, 3, 1, 1), "1,2,3,4,4,5,1,3,2,9", "S2", "quick")]
+            (2, 4, (0, 0, 0, 0, 3, 1, 1), "1,2,3,4,4,5,1,3,2,9", "S2", "quick"),
+            # S3: level 1 = [1..2], level 2 = [1..3] [3..5] (key 3 straddles in level+1): inputs[1] must pull its boundary file
+            (2, 1, (0, 1, 2), "1,2,1,3,3,5", "S3", "quick")]
     for ent in [(m, c, t, None, "", tr) for (m, c, t, tr) in cfg] + scen:
         mode, cl, t, ukeys, stag, tier = ent
         t = tuple(t) + (0,) * (9 - len(t))
@@ -151,7 +153,7 @@ def boundary_obls(prefix):
                                   "ldb_add_boundary_inputs.0": mx + 1, "find_smallest_boundary_file.0": mx + 1,
                                   "find_largest_key.0": mx + 2, "total_file_size.0": mx + 2, "ldb_versions_get_range.0": 2 * mx + 2,
                                   "ldb_versions_get_range2.0": mx + 2, "ldb_versions_get_range2.1": mx + 2},
-                       restrict_fp=CMP_FP, tier=tier, timeout=600, flags=["--slice-formula"], functions=BD_FUNCS, object_bits=10,
+                       restrict_fp=CMP_FP, tier=tier, timeout=600 if tier == "quick" else 1800, flags=["--slice-formula"], functions=BD_FUNCS, object_bits=10,
                        desc={0: "add_boundary_inputs on a symbolic contiguous run of a level: given files kept, only boundary files added, result closed: "
                                 "no file left behind holds older entries of a user key a selected file ends with",
                              1: "pick_compaction (size triggered, symbolic compact pointer)", 2: "pick_compaction (seek triggered, any file)",
@@ -220,4 +222,38 @@ def versionlist_obls(prefix):
 
 
 OBLIGATIONS = overlap_obls("e") + baselevel_obls("d") + boundary_obls("f") + apply_obls("d") + versionlist_obls("b")
+
+# META fragments for the importing property modules (C01 / C14 / C02+C05+C17 / C13)
+META_FRAGMENTS = {
+    "C01": {
+        "bounds": ["flush placement / overlap tests: <= 2 files in each of levels 0..3 (one configuration in level 6), 1-byte user keys 0..15, sequences 0..7, file sizes 0..4000 with max_file_size 100 (grandparent limit 1000 bytes)",
+                   "is_base_level_for_key: compaction level 0..4, <= 3 files per level in levels level+2..6 (level 6 always included), 2-3 non-decreasing user keys",
+                   "compaction input selection: <= 3 files in the compaction level, <= 2 in level+1, <= 1-2 in level+2 (levels 0/1, 1/2, 4/5/6, 5/6), one user key may straddle adjacent files; scenario obligations with concrete user keys of the bounds (S1-S3) and symbolic sequences/sizes"],
+        "outside": ["file contents (entries between the bounds), table reads; more than 3 files per level; user keys longer than 1 byte; comparators other than bytewise",
+                    "4+ file compaction configurations and 2-file level-0 compactions are thorough tier (130-600 s each)"],
+        "models": ["harness/vset/ver.h: symbolic version (bounds only) under the C14 invariant; comparator calls of the #included version_set.c routed through one dispatch function (vp_compare)",
+                   "kit/vp_d5_alloc.c: ldb_vector_t items = typed fixed-capacity pointer array grown in place; byte buffers = 16/32-byte slab grown in place",
+                   "version_edit.c recorders (ldb_edit_init/clear/set_compact_pointer) in harness/vset/boundary.c"],
+    },
+    "C14": {
+        "bounds": ["compaction input selection (pick_compaction size/seek triggered, compact_range, add_boundary_inputs, setup_other_inputs, is_trivial_move): see C01 bounds; asserts level+1 overlap completeness, survivors outside the inputs' internal-key hull, grandparent set, compact pointer",
+                   "ldb_version_get_overlapping_inputs: level >= 1 exact set in order (<= 3 files, also level 6); level 0 == transitive closure (brute-force fixpoint) for <= 3 files, user keys 0..7",
+                   "flush placement rule (pick_level_for_memtable_output) == reference rule, level <= 2"],
+        "outside": ["outputs of the compaction itself (C14.c), builder merge (C14.a), MANIFEST replay (C14.e)"],
+        "models": ["as C01"],
+    },
+    "C02": {
+        "bounds": ["ldb_versions_apply: first call (new MANIFEST) and MANIFEST-open call; base version empty / one file + flush edit / two files + compaction edit (concrete keys and sizes); all five 64-bit counters and the edit's optional log numbers symbolic; every env/log/filename call below fails or not with any error code"],
+        "outside": ["byte encoding of the records (C17.b: ldb_edit_export is abstracted to a one-byte record naming the exported edit, fields recorded at export time)",
+                    "ldb_set_current_file internals (C02.e), env_unix (C02.f), log_writer framing (C15)", "crash points inside a step (the steps are atomic stubs)"],
+        "models": ["harness/vset/apply.c monitoring stubs: ldb_desc_filename, ldb_truncfile_create, ldb_writer_create/add_record/destroy, ldb_wfile_sync/close/destroy, ldb_remove_file, ldb_set_current_file, ldb_mutex_lock/unlock (ghost mutex), ldb_log, ldb_strerror; abstract ldb_edit_export",
+                   "real: version_set.c (apply, builder, finalize, write_snapshot, append_version), version_edit.c, rbt.c, vector.c, buffer.c, dbformat.c"],
+    },
+    "C13": {
+        "bounds": ["version list of <= 3 versions (heap objects from the real ldb_version_create) x <= 2 files out of 3 distinct file objects (shared between versions), every file at a symbolic level 0..6, version reference counts 1..3, file counts = holders + 0/1"],
+        "outside": ["more versions/files; interaction with compactions holding input_version (covered only as 'a reader holds a reference')"],
+        "models": ["harness/vset/versionlist.c recorders: ldb_filemeta_ref/unref (count + call log, no free), rb_set64_put (bit set); file numbers concrete (3 + 2g: only handed on, never compared)",
+                   "kit/vp_d5_alloc.c"],
+    },
+}
 META = {}
